@@ -155,7 +155,7 @@ def meme_rules(repo):
         anc.append(n)
     in_row_block = any(x in rb for x in anc) or c in rb
     if not in_row_block:
-        out.append(violation("R-FLUSH", fi, role,
+        out.append(named("R-FLUSH", fi, role,
                              "the commit sits in a different branch than the row parser: it is triggered by the NEXT line, which is consumed "
                              "(last motif lost without a trailing line; a MOTIF line directly after a matrix is swallowed)", c,
                              witness={"file": "MOTIF a\\nletter-probability matrix: alength= 4 w= 1\\n0.25 0.25 0.25 0.25<EOF>", "effect": "motif a missing"}))
